@@ -45,6 +45,8 @@ func checkC10(r *core.Run) {
 	ruleRenewOwner(r)
 	r.Rule("T-loopvar: in the sao and did message handlers no address of a per-loop variable is stored into a slice/field inside its loop (revoking several accounts in one MsgUpdate must unbind each of them, since CreatorIsBoundToDid reads those bindings)")
 	ruleLoopVarAddr(r, "T-loopvar", "sao/keeper.msgServer.", "did/keeper.msgServer.")
+	r.Rule("G-bound: an account becomes 'bound to' an existing sid DID (the relation under which Store charges the owner's payment address for a signer, and under which Update / UpdatePaymentAddress accept a submitter) only on a path where the submitter of the binding is itself already bound to that DID; a binding to a DID that does not exist yet requires the recomputed document id. The account's own consent (its proof) is not the owner's authorisation")
+	ruleBoundSubmitter(r, "G-bound")
 	r.Rule("G-pay: UpdatePaymentAddress makes an account the payment address of a sid DID only if that account is bound to that very DID (it signed a binding proof for it) and the submitter is bound to it too; of a key DID only the address itself, once — otherwise a stranger's account is charged for orders it never signed")
 	ruleSigOwner(r)
 	r.Rule("T-decode-fresh: every record decoded inside a loop is decoded into a variable that is fresh per iteration (Unmarshal appends to repeated fields: with a hoisted variable a node inherits the TxAddresses other nodes declared, and the handlers trust that list)")
